@@ -85,6 +85,8 @@ def build(case):
     for i in case["nans"]:
         d[i] = np.nan
     d = d.reshape(shape)
+    if not case["nans"] and case["wseed"] % 4 == 0:
+        d = d.astype(np.int64)                  # integer data (the values are small integers anyway)
     mk = case["mask"]
     mask = {"none": None, "false": False, "true": True}.get(mk, "arr")
     if mask == "arr":
@@ -109,7 +111,8 @@ def run(case):
     shape = tuple(case["shape"])
     bins = case["bins"]
     form = case["form"]
-    arg = tuple(bins)
+    # the bin shape as a tuple, a list, an ndarray, or a tuple of numpy integers (when all entries are integers)
+    arg = [tuple, list, np.array, lambda b: tuple(np.int64(x) if float(x).is_integer() else x for x in b)][case["wseed"] % 4](bins)
     if form == "quantity":
         arg = np.array(bins) * u.pix
     elif form == "badunit":
